@@ -1,8 +1,16 @@
 """Which properties are claimed (and how) and which are not applicable (and why)."""
 
-HOOK_COMMITS = ["b8da976", "b9b8f57"]
+HOOK_COMMITS = ["b8da976", "b9b8f57", "e9be43a", "cdf7848"]
 
 CLAIMS = {
+    "C06": dict(
+        category="proof", technique="contract-based verification with Kani/CBMC on the real crate (loop-free full-domain harnesses over the state machines)",
+        text="The ordered-aggregation emission state machines GroupOrderingFull / GroupOrderingPartial are proved, for every state and every argument, never to release the group (or sort-key run) that can still receive rows: emit_to is None / First(n) with n <= the open group / All only after input_done; remove_groups renumbers by exactly n; illegal transitions panic. Everything else in C06 (hash tables, accumulators, spilling, TopK, partial/final agreement) is whole-engine and not claimed.",
+        note="Trusted: Kani/CBMC. Assumed: representation invariant current_sort <= current of GroupOrderingPartial (established by new_groups via arrow partition ranges, which is not verified)."),
+    "C08": dict(
+        category="proof", technique="contract-based verification with Kani/CBMC on the real crate (loop-free harness, symbolic inner order)",
+        text="The per-column merge comparator ArrayValues::{is_null, compare, eq, eq_to_previous, get_value, eq_to_single_row_value} is proved to implement exactly the requested ordering rule for every SortOptions combination, every null threshold and an arbitrary inner order: NULL placement by nulls_first independent of direction, values reversed iff descending, eq <=> Equal, antisymmetric, transitive. The loser tree, batch building, spilling, TopK are not within reach and not claimed.",
+        note="Trusted: Kani/CBMC; inner CursorValues modelled by a symbolic order on 4 slots; NULL layout (prefix/suffix by null_threshold) as established by ArrayValues::new."),
     "C09": dict(
         category="proof", technique="contract-based deductive verification (Verus/SMT on the extracted real function)",
         text="ROWS-frame computation (WindowFrameContext::calculate_range_rows) proved, for every u64 offset, every frame shape and every idx < length, to return exactly the mathematical frame {j | 0<=j<length, idx-p<=j<=idx+f} with no arithmetic overflow. The rest of the property (RANGE/GROUPS frames, evaluators, executors) is outside the reach of contracts and is not claimed.",
@@ -13,7 +21,7 @@ CLAIMS = {
         note="Trusted: Verus+Z3; compare_rows as uninterpreted comparison with assumed transitivity; extract_row_at_idx_to_buf / first().len() / SplitPoint::values behind assumed contracts; split points strictly sorted (validate_range_split_points) and indices.len()==splits+1 as preconditions; rewrites R3/R13."),
     "C14": dict(
         category="proof", technique="contract-based deductive verification (Verus/SMT, inductive loop invariant over a chain-sequence view, on the extracted real function, monomorphised u32/u64)",
-        text="traverse_chain proved, for every well-formed next-array (forward or reversed insertion order), every start, every page size, to append exactly the next min(remaining, len) build rows of the chain in chain order with the probe index repeated, to decrement the budget exactly, and to return an offset from which the remainder of the same chain is produced (lemma_resume: pages of any size concatenate to the unpaged sequence). Hash-table lookup itself (hashbrown) and NULL masks are outside Verus and not part of the proof.",
+        text="traverse_chain proved, for every well-formed next-array (forward or reversed insertion order), every start, every page size, to append exactly the next min(remaining, len) build rows of the chain in chain order with the probe index repeated, to decrement the budget exactly, and to return an offset from which the remainder of the same chain is produced (lemma_resume: pages of any size concatenate to the unpaged sequence). The whole paged lookup get_matched_indices_with_limit_offset (chained path and unique-keys fast path, NULL mask, every resume offset form) is proved against the unpaged answer: what a call returns followed by what its returned offset stands for is exactly what the incoming offset stood for, at most `limit` matches per page, the offset can be fed back and paging progresses. hashbrown::HashTable::find and update_from_iter are behind assumed contracts.",
         note="Trusted: Verus+Z3; usize 64 bit; rewrite R3 (T -> u32 / u64, usize_as/into == as). Preconditions: well-formed next array, 1 <= start <= len, remaining >= 1."),
     "C23": dict(
         category="proof", technique="contract-based verification with Kani/CBMC (loop-free harnesses over all bit patterns = complete)",
@@ -31,6 +39,14 @@ CLAIMS = {
         category="proof", technique="contract-based verification with Kani/CBMC on the real crate (loop-free harness over full-domain symbolic state, I/O stubbed nondeterministically)",
         text="Per-operation accounting contract of FileSpillWriter::write (Ok => global and per-file usage += len and within limit; Err, from quota or from a failed underlying write => both unchanged) and of set_max_temp_directory_size, for the full u64 domain. The byte-level round trip of spill files is outside reach and not claimed.",
         note="Trusted: Kani/CBMC; atomics sequential; <File as Write>::write stubbed as arbitrary Ok/Err; error formatting stubbed; drop of temp files (syscalls) not covered."),
+    "C29": dict(
+        category="proof", technique="contract-based deductive verification: Verus/SMT on the extracted with_fetch row-count computation (truncated before the f64 byte-size scaling), Kani/CBMC full-domain harnesses for the Precision<usize> algebra",
+        text="A statistic reported as Exact is exact, for the functions that create Exact values from others: Precision<usize>::{add, sub, multiply, min, max, to_inexact, with_estimated_selectivity} (Kani, every usize pair and variant combination: Exact only from Exact inputs and equal to the true mathematical value, never on overflow/saturation) and Statistics::with_fetch's row count (Verus: equals a specification function for which lemma_exact_is_exact proves Exact(v) => exact input and v == rows LIMIT/OFFSET emits x partitions, unwrapped). Per-operator propagation (joins, filters, parquet metadata) is whole-plan and not claimed.",
+        note="Trusted: Verus+Z3, Kani/CBMC; rewrites R13/R14/R17 (closure -> verified helper, truncation before float scaling, mut self rename); n_partitions >= 1; column statistics after a cut not verified (symbolic f64 division does not finish in CBMC)."),
+    "C40": dict(
+        category="proof", technique="contract-based deductive verification (Verus/SMT on the extracted cache state machine against a recency-ordered sequence view; LRU queue behind an assumed contract)",
+        text="DefaultCacheState::{get, contains_key, put, remove, evict_entries, clear} and the update_cache_limit critical section are proved to keep accounted size == sum of (key size + value size) over the entries, to stay within the byte limit after every put / limit change, to evict exactly the shortest prefix of least-recently-used entries needed, to make the written key most recent, and never to return an expired entry (expired => removed, None/false). The file-validity half of C40 (size/mtime checks, table-drop invalidation seen by queries) is whole-engine and not claimed.",
+        note="Trusted: Verus+Z3; ASSUMED LruQueue contract (not checked against lru_queue.rs); size() pure, clone equal, Eq == spec equality; Instant/Duration as integers; memory_limit <= usize::MAX/2; hit counters dropped (R8); rewrites R4,R5,R6,R10,R13,R15."),
     "C42": dict(
         category="proof", technique="contract-based verification with Kani/CBMC on the real crate (complete loop-free harnesses for the combinators; bounded whole-tree harnesses listed separately)",
         text="Complete proofs (all cases) of the control contract of TreeNodeRecursion::{visit_children, visit_sibling, visit_parent} and Transformed::{transform_children, transform_sibling, transform_parent, transform_data, update_data, map_data}: closure called iff the documented state, Jump consumed exactly at children, Stop propagates, changed flag is the OR. Bounded stand-ins (one 4-node tree, all decision vectors) for the real apply/visit/transform_down/transform_up and the sibling iterators.",
@@ -43,9 +59,7 @@ NOT_APPLICABLE = {
     'C03': 'Semantic equivalence of plan rewrites: needs a formal semantics of `LogicalPlan`; rules are thousands of lines of enum/`Arc` rewriting outside both verifiers.',
     'C04': 'Expression simplifier value preservation: needs an expression evaluator semantics and Arrow kernels; out of reach.',
     'C05': 'Join operators end to end: async streams, Arrow builders, bitmaps; only the hash-chain lookup core is reachable and is claimed under C14.',
-    'C06': 'unit not built yet in this session (planned: Kani contracts on GroupOrderingFull/Partial state machines, DESIGN.md section 3)',
     'C07': 'Accumulator split/merge/retract laws: generic Arrow kernels, floats and macro-generated impls; no contract within reach.',
-    'C08': 'unit not built yet in this session (planned: Kani on ArrayValues::compare and the loser tree, DESIGN.md section 3)',
     'C12': 'Hash independence from physical array layout: quantifies over Arrow encodings (dictionary, views, run-end, nested offsets); Arrow arrays are outside Verus and intractable under CBMC.',
     'C13': 'Group-key interning: hashbrown tables + Arrow builders per key type; only the trivial boolean store is reachable, which would not represent the property.',
     'C15': 'schedules; sequential step invariants only would not decide the stated quantifier (stretch unit not built)',
@@ -59,7 +73,6 @@ NOT_APPLICABLE = {
     'C26': 'Byte-range scans: `AlignedBoundaryStream` is an async state machine over `object_store`; `repartition_evenly_by_size` is iterator-adapter/itertools code over `PartitionedFile` — outside Verus, and a bounded Kani run through `ObjectMeta`/`String` clones was judged not worth its cost.',
     'C27': 'Partition-value pruning of listings: path/string parsing, object-store listing, expression evaluation.',
     'C28': 'Declared orderings/equivalences hold on data: relates symbolic `EquivalenceProperties` to executed Arrow data; whole-engine.',
-    'C29': 'unit not built yet in this session (planned: Kani contracts on the Precision algebra and with_fetch, DESIGN.md section 3)',
     'C30': 'Produced batches conform to schema: whole-plan execution.',
     'C31': 'Dynamic filters: concurrency (generations under RwLock/atomics, schedules) plus whole-query results.',
     'C32': 'Scalar functions independent of argument representation: hundreds of Arrow-kernel functions, strings, unicode.',
@@ -70,7 +83,6 @@ NOT_APPLICABLE = {
     'C37': 'Substrait round-trip: same, plus external schema.',
     'C38': 'Unparser round-trip: SQL text generation and re-parsing through sqlparser.',
     'C39': 'DML on MemTable: async, Arrow `filter`/`zip` kernels, RwLock state.',
-    'C40': 'unit not built yet in this session (planned: Verus on DefaultCacheState accounting, DESIGN.md section 3)',
     'C41': 'Bound parameters ≡ literals: plan rewriting + execution.',
     'C43': 'Config text round-trip: macro-generated visitors and string parsing; Verus has no `str` reasoning and the macros cannot be extracted.',
     'C44': 'Schema adaptation: Arrow casts and nested struct rewriting.',
